@@ -3,9 +3,9 @@
 From Coq Require Import Reals.
 From Coquelicot Require Import Coquelicot.
 From OV.base Require Import Num Piecewise.
-From OV.gen Require Import Gen_SmoothFunctions Gen_Friction Gen_MortarContact.
+From OV.gen Require Import Gen_SmoothFunctions Gen_Friction Gen_MortarContact Gen_Surface Gen_EdgeCpp.
 From OV.model Require Import M_C18.
-From OV.proofs Require Import L_C18 L_C18x.
+From OV.proofs Require Import L_C18 L_C18b L_C18x.
 Local Open Scope R_scope.
 
 (* smoothed minimum: one-sided, tight, exact outside the band, symmetric *)
@@ -89,6 +89,35 @@ Proof. exact d_slin_ok. Qed.
 Theorem C18_dformula_friction : forall s0 s1 mu sReg,
   fst (@d_friction R NumR s0 s1 mu sReg) = mu * (dfE sReg (s0 * s0 + s1 * s1) * (2 * s0)).
 Proof. exact d_friction_ok. Qed.
+
+(* second-wave additions: remaining partials, friction along every line, smoothstep, necessity of l <= 1/2 *)
+Theorem C18_max_C1_y : forall x e, safeTol < e -> C1_with (fun y => @s_max R NumR x y e) (fun y => dsmin_dx (- x) e (- y)).
+Proof. exact smax_C1_in_y. Qed.
+Theorem C18_friction_C1_along_every_line : forall mu sReg a0 a1 d0 d1, 0 < sReg ->
+  C1_with (fun t => @compute_friction_energy_from_perp_slip R NumR (a0 + t * d0) (a1 + t * d1) mu sReg)
+          (fun t => mu * (dfE sReg ((a0 + t * d0) * (a0 + t * d0) + (a1 + t * d1) * (a1 + t * d1))
+                          * (2 * (a0 + t * d0) * d0 + 2 * (a1 + t * d1) * d1))).
+Proof. exact friction_C1_along_line. Qed.
+Theorem C18_friction_C1_partial_1 : forall mu sReg s0, 0 < sReg ->
+  C1_with (fun s1 => @compute_friction_energy_from_perp_slip R NumR s0 s1 mu sReg)
+          (fun s1 => mu * (dfE sReg (s0 * s0 + s1 * s1) * (2 * s1))).
+Proof. exact friction_C1_partial_1. Qed.
+Theorem C18_smoothstep_C1 : C1_with (fun x => @smoothstep R NumR x) dsstep.
+Proof. exact smoothstep_C1. Qed.
+Theorem C18_smoothstep_range : forall x, 0 <= @smoothstep R NumR x <= 1.
+Proof. exact smoothstep_range. Qed.
+(* the hypothesis l <= 1/2 of C18_smooth_linear_C1 cannot be dropped: for l = 1 smooth_linear jumps at xi = 1 *)
+Theorem C18_smooth_linear_needs_l_le_half_refuted :
+  forall delta, 0 < delta -> exists x, Rabs (x - 1) < delta /\ 1 / 4 <= Rabs (@smooth_linear R NumR x 1 - @smooth_linear R NumR 1 1).
+Proof. exact smooth_linear_not_continuous_for_l_1_refuted. Qed.
+
+Theorem C18_dformula_max_y : forall x y e, @d_smax_dy R NumR x y e = dsmin_dx (- x) e (- y).
+Proof. exact d_smax_dy_ok. Qed.
+Theorem C18_dformula_friction_1 : forall s0 s1 mu sReg,
+  snd (@d_friction R NumR s0 s1 mu sReg) = mu * (dfE sReg (s0 * s0 + s1 * s1) * (2 * s1)).
+Proof. exact d_friction_ok_1. Qed.
+Theorem C18_dformula_smoothstep : forall x, @d_sstep R NumR x = dsstep x.
+Proof. exact d_sstep_ok. Qed.
 
 (* non-vacuity: hypotheses are satisfiable at concrete arguments *)
 Example C18_nonvacuous : safeTol < 1 /\ 0 < 1 <= 1 / 2 + 1 / 2 /\ (1:R) <= Rabs (3 - 1).
